@@ -193,6 +193,7 @@ def call(a):
 
 
 def _call(a, k, nrows, rows, forms, strat, mode, obs):
+  graph = a["graph"]
   template(k, nrows)                 # built outside the timed region (first use imports astroid)
   if mode != "load" and (k, nrows) not in _long_lived:
     _long_lived[(k, nrows)], _ = C06.fork_by_load(template(k, nrows))
@@ -206,6 +207,20 @@ def _call(a, k, nrows, rows, forms, strat, mode, obs):
         n_of = {r: r + 4 * (i + 1) for r in rows}
         eng.apply(e, [["BulkUpdateRecord", "T", rows, {"n": [n_of[r] for r in rows]}]])
         obs.append((n_of, observe(e, k, rows)))
+    elif mode == "transition":
+      # graph -> graph: install G, then edit ONE column to every other reference set and back;
+      # after each edit every cell is judged against reachability in the graph it has NOW
+      e = _long_lived[(k, nrows)]
+      C06.set_strategy(e, strat)
+      eng.apply(e, [["ModifyColumn", "T", c, {"formula": forms[c]}] for c in sorted(forms)])
+      n_of = {r: r for r in rows}
+      obs.append((n_of, observe(e, k, rows), graph))
+      col = a["col"]
+      for alt in a["alternatives"]:
+        for refs in (alt, graph[col]):
+          g2 = dict(graph); g2[col] = refs
+          eng.apply(e, [["ModifyColumn", "T", "c%d" % col, {"formula": formula(col, refs)}]])
+          obs.append((n_of, observe(e, k, rows), g2))
     else:
       key = (k, nrows)
       if key not in _long_lived:
@@ -225,9 +240,15 @@ def is_circular(v):
   return isinstance(v, tuple) and len(v) >= 3 and v[0] == "l" and v[1] == "E" and v[2] == "CircularRefError"
 
 
-def _spec_for(a, n_of):
+def _spec_for(a, n_of, graph=None):
   rows = list(range(1, a["rows"] + 1))
-  return spec(a["k"], rows, cell_refs_of(a["k"], rows, a["graph"]), n_of)
+  return spec(a["k"], rows, cell_refs_of(a["k"], rows, graph or a["graph"]), n_of)
+
+
+def _obs(r):
+  """(n_of, cells, graph-or-None) for every observation of a case"""
+  for o in r["obs"]:
+    yield (o[0], o[1], o[2] if len(o) > 2 else None)
 
 
 def ens_terminates(a, r):
@@ -241,21 +262,21 @@ def ens_terminates(a, r):
 
 
 def ens_circular(a, r):
-  for n_of, cells in r["obs"]:
-    on_cycle, tainted, values = _spec_for(a, n_of)
+  for step, (n_of, cells, g) in enumerate(_obs(r)):
+    on_cycle, tainted, values = _spec_for(a, n_of, g)
     for c in sorted(on_cycle):
       if not is_circular(cells[c]):
-        return "cell c%d[%d] lies on a cycle but holds %r" % (c[0], c[1], cells[c])
+        return "step %d: cell c%d[%d] lies on a cycle but holds %r" % (step, c[0], c[1], cells[c])
   return True
 
 
 def ens_normal(a, r):
-  for n_of, cells in r["obs"]:
-    on_cycle, tainted, values = _spec_for(a, n_of)
+  for step, (n_of, cells, g) in enumerate(_obs(r)):
+    on_cycle, tainted, values = _spec_for(a, n_of, g)
     for c, v in sorted(values.items()):
       if cells[c] != eng._norm(v):
-        return "cell c%d[%d] neither lies on nor depends on a cycle; expected %d, holds %r" % (
-          c[0], c[1], v, cells[c])
+        return "step %d%s: cell c%d[%d] neither lies on nor depends on a cycle; expected %d, holds %r" % (
+          step, (" (formulas %r)" % formulas_of(a["k"], g)) if g else "", c[0], c[1], v, cells[c])
   return True
 
 
@@ -336,9 +357,27 @@ def cases(tier, seed):
           yield a
 
 
+def transition_cases(tier, seed):
+  """Single-column edits between graphs: for a graph G and a column i, G is installed, then column
+  i is set to each of the other 2^k - 1 reference sets and back to G[i] (so every directed
+  single-column transition G -> G' is met from both sides).  k = 1, 2: all (graph, column) pairs;
+  k = 3: all 1536 pairs in the thorough tier, every 4th pair (rotating with the seed) in quick."""
+  for k in (1, 2, 3):
+    per_col = [tuple((j, SAME) for j in s) for s in subsets(range(k))]
+    nperm = math.factorial(k)
+    n = 0
+    for gi, g in enumerate(single_row_graphs(k)):
+      for col in range(k):
+        n += 1
+        if k == 3 and tier == "quick" and (n + seed) % 4: continue
+        yield {"k": k, "rows": 1, "graph": g, "mode": "transition", "col": col,
+               "perm": (gi + col + seed) % nperm,
+               "alternatives": [r for r in per_col if r != g[col]]}
+
+
 def sampled_cases(tier, seed):
   rng = random.Random(seed * 31 + 18)
-  n_asym, n_k4 = (300, 150) if tier == "quick" else (6000, 4000)
+  n_asym, n_k4 = (160, 80) if tier == "quick" else (6000, 4000)
   for g in asymmetric_graphs_k2(rng, n_asym):
     yield {"k": 2, "rows": 2, "graph": g, "perm": rng.randrange(2), "mode": rng.choice(["load", "modify"])}
   for g in random_graphs(4, rng, n_k4):
@@ -355,7 +394,7 @@ def nontrivial(a, r, exc):
 
 
 def show(a):
-  return {"k": a["k"], "rows": a["rows"], "mode": a["mode"], "perm": a["perm"],
+  return {"k": a["k"], "rows": a["rows"], "mode": a["mode"], "perm": a["perm"], "col": a.get("col"),
           "edit_perms": a.get("edit_perms"),
           "formulas": formulas_of(a["k"], a["graph"])}
 
@@ -413,10 +452,16 @@ def main():
   for key in ((1, 1), (2, 1), (3, 1), (2, 2), (4, 1), (5, 1)):   # warm-up in the parent: forked
     template(*key)                                                # workers inherit the documents
   fn.check(rep, contract("Engine.apply_user_actions [all graphs, k<=3 and k=2 cross-row]"), cases,
-           exhaustive=True, limit_quick_s=55)
+           exhaustive=True, limit_quick_s=40)
   exhaustive = rep.coverage.get("exhaustive", False)
+  fn.check(rep, contract("Engine.apply_user_actions [graph -> graph: single-column edits, k<=3]"),
+           transition_cases, limit_quick_s=25)
+  rep.coverage["transition_scope"] = (
+    "every (graph, column) pair for k <= 2, %s for k = 3: the column is edited to each of the "
+    "other reference sets and back, all clauses checked against the graph in force after each "
+    "edit" % ("every pair" if common.tier() == "thorough" else "every 4th pair (rotating with the seed)"))
   fn.check(rep, contract("Engine.apply_user_actions [sampled: asymmetric cross-row, k=4,5]"),
-           sampled_cases, limit_quick_s=15)
+           sampled_cases, limit_quick_s=12)
   rep.coverage["exhaustive"] = exhaustive
   rep.coverage["exhaustive_scope"] = ("all graphs over k<=3 same-row formula columns (2+16+512) and "
                                       "all 256 symmetric cross-row graphs for k=2, x 2 modes; "
